@@ -328,7 +328,25 @@ def _roundtrip_once(cfg, factor, big):
                         bad.append((key, f'row {r} col {ci + 1}', gotv, want))
                 except (TypeError, ValueError, IndexError):
                     continue
-    return bool(bad), {'parsed values that are not the number printed under their label / in their cell': bad[:8]}
+    fields_all = set()
+    for cat, fields in res.result.items():
+        if isinstance(fields, dict):
+            fields_all |= set(fields.keys())
+    missing = sorted({lab for lab, cs in bylabel.items() if lab not in fields_all
+                      and any(c[2] >= 4 and re.fullmatch(r'-?[0-9][0-9,]*\.?[0-9]*(?:[eE][-+]?[0-9]+)?', c[0]) for c in cs)})
+    return bool(bad), {'parsed values that are not the number printed under their label / in their cell': bad[:8], 'figure lines the client does not return': missing}
+
+
+# labelled figure lines of the report that the client's extraction table does not list on the pinned tree (recorded finding
+# C10-report-lines-the-client-does-not-return); any OTHER printed figure line that the client does not return is a violation
+KNOWN_UNEXTRACTED = {'Annual Thermal Drawdown', 'Constant production well temperature drop', 'Total Tonnes of CO2 Captured',
+                     'Wellbore Heat Transmission Model = Constant Temperature Drop', 'm/A Drawdown Parameter'}
+
+
+def concrete_missing(cfg, label):
+    v, d = _roundtrip_once(cfg, 1.2512345, False)
+    miss = d.get('figure lines the client does not return', [])
+    return label in miss, {'figure line printed by the report': label, 'returned by the client': label not in miss, 'all figure lines the client does not return': miss}
 
 
 def heading_units(text, title):
@@ -426,7 +444,9 @@ def run_unit(unit):
         nfields = 0
         # percentages of a fraction in [0, 1]: printed with a 10-character field they can never fill or overflow it; the 'full' / 'over'
         # renderings of these figures are not reports the simulator can emit
-        bounded = {'Geothermal Ratio (electricity vs heat)', 'Percent Energy Devoted To Process'} if mode != 'pad' else set()
+        # (the same holds for the redrilling cost line, which the writer prints without a blank after the colon: a wellfield cost of a million
+        # MUSD - what it takes to fill its 10-character field - is beyond every accepted input)
+        bounded = {'Geothermal Ratio (electricity vs heat)', 'Percent Energy Devoted To Process', 'Drilling and completion costs (for redrilling)'} if mode != 'pad' else set()
         for cat, fields in res.result.items():
             if cat == 'metadata' or not isinstance(fields, dict):
                 continue
@@ -467,6 +487,17 @@ def run_unit(unit):
                 want_unit = f0['unit'] if f0['nwords'] == 2 else ('count' if fname.startswith('Number') else None)
                 harness.discharge(log, c, f'[{cat}] "{fname}": the unit returned is the unit printed after the figure', vu.get('unit') == want_unit, zv, conc)
         # every printed figure whose label the parser knows is exposed (no silently dropped field) is covered by the vu is None clause above
+        # ... and every labelled figure line the writer prints is one the client returns (a renamed label on either side drops a figure)
+        fields_all = set()
+        for cat, fields in res.result.items():
+            if isinstance(fields, dict):
+                fields_all |= set(fields.keys())
+        for lab, fl in bylabel.items():
+            if lab in fields_all or not any(f['token'] is not None or f.get('literal') is not None for f in fl):
+                continue
+            rec = lab in KNOWN_UNEXTRACTED
+            harness.discharge(log, c, f'"{lab}": a labelled figure line of the report is returned by the client' + (' [recorded: not in the client\'s extraction table]' if rec else ''),
+                              False, zv, lambda inp, lab=lab: concrete_missing(cfg, lab), finding=('C10-report-lines-the-client-does-not-return' if rec else None))
         for title, key in TABLE_KEYS.items():
             rows = tables.get(title)
             if rows is None:
